@@ -356,7 +356,12 @@ def verify_lemma(ctx, name):
             # induction on a natural-number variable n: prove P(0) and P(n) => P(n+1);
             # encoded by adding the hypothesis for n-1 when n > 0
             n = env[lm.induct]
+            # evaluate the conclusion once on the main state first, so that ghost definitions it introduces (prefix
+            # functions of vectors) are shared with, not re-created inside, the induction hypothesis
+            for e in lm.ensures:
+                ex.spec_formula(e if isinstance(e, str) else e[1], dict(env), st)
             s_h = State(pc=[], heap=st.heap)
+            s_h.ghost = dict(st.ghost)
             env_h = dict(env)
             env_h[lm.induct] = n - 1
             pre_h = [_b(ex.spec_formula(r, dict(env_h), s_h)) for r in lm.requires]
